@@ -18,11 +18,11 @@ type vC02Got struct {
 	retain  bool
 }
 
-// VH_C02_deliver(nameLen, nr): gateway and client share the predefined
+// VH_C02_deliver(nameLen, nr, unsub): (unsub = 1: the client first unsubscribes, by name, from the first registered name) gateway and client share the predefined
 // configuration; the client knows every registration of the gateway under the
 // same ID (the invariant REGACK / SUBACK / REGISTER handling maintains). The
 // broker publishes on a symbolic name (short, predefined, registered or new).
-func VH_C02_deliver(nameLen, nr int) {
+func VH_C02_deliver(nameLen, nr, unsub int) {
 	w, ce, we := vC32World(1, 1, nameLen)
 	re := vRegistry(w.x.h, nr, nameLen)
 	for _, e := range re {
@@ -40,6 +40,24 @@ func VH_C02_deliver(nameLen, nr int) {
 	client.VInstallHandler(w.cl, "#", func(c *client.Client, topic string, pkt *snPkts1.Publish) {
 		got = append(got, vC02Got{topic, pkt.Data, pkt.QOS, pkt.Retain})
 	})
+	if unsub == 1 && nr > 0 {
+		// the client unsubscribes from the first registered name (by name): both sides
+		// keep the registration, so a later message on it (e.g. through a wildcard
+		// subscription) still goes out under the ID the client knows
+		vGo(func() { w.cl.Unsubscribe(re[0].name) })
+		vRunUntilIdle()
+		w.toGateway()
+		mqu := w.x.mq.take()
+		vAssume(len(mqu) == 1)
+		u := vParseMQTT(mqu[0])
+		ua := mqPkts.NewControlPacket(mqPkts.Unsuback).(*mqPkts.UnsubackPacket)
+		ua.MessageID = u.MsgID
+		w.x.feedMQ(ua)
+		w.toClient()
+		vRunUntilIdle()
+		w.x.sn.take()
+		vReach("C02.unsubscribed_first")
+	}
 	p := mqPkts.NewControlPacket(mqPkts.Publish).(*mqPkts.PublishPacket)
 	p.TopicName = vNondetString("topic", nameLen)
 	vAssume(vAnd(len(p.TopicName) > 0, !vHasWild([]byte(p.TopicName))))
